@@ -209,6 +209,9 @@ func (in *Interp) mapFind(m *Map, k Value) int {
 	if m == nil {
 		return -1
 	}
+	if m.lazy != nil {
+		in.lazyMapLookup(m, k)
+	}
 	if m.allConc && isConcrete(k) {
 		if i, ok := m.index[hashKey(k)]; ok {
 			return i
@@ -235,10 +238,20 @@ func (in *Interp) mapFind(m *Map, k Value) int {
 }
 
 func (in *Interp) mapInsert(m *Map, k, v Value) {
+	if m.lazy != nil {
+		if ks, ok := k.(string); ok {
+			// an assignment needs no decision about what the document held
+			m.lazy.decided[ks] = true
+		}
+	}
 	if i := in.mapFind(m, k); i >= 0 {
 		m.entries[i].v = v
 		return
 	}
+	in.mapInsertRaw(m, k, v)
+}
+
+func (in *Interp) mapInsertRaw(m *Map, k, v Value) {
 	k = copyVal(k)
 	m.entries = append(m.entries, mapEntry{k: k, v: v})
 	m.live++
@@ -254,6 +267,11 @@ func (in *Interp) mapInsert(m *Map, k, v Value) {
 func (in *Interp) mapDelete(m *Map, k Value) {
 	if m == nil {
 		return
+	}
+	if m.lazy != nil {
+		if ks, ok := k.(string); ok {
+			m.lazy.decided[ks] = true
+		}
 	}
 	if i := in.mapFind(m, k); i >= 0 {
 		if m.allConc {
@@ -287,6 +305,9 @@ type strIter struct {
 func (in *Interp) rangeIter(x Value) Value {
 	switch x := x.(type) {
 	case *Map:
+		if x != nil && x.lazy != nil {
+			panic(unsupported{"range over a lazy (arbitrary) map"})
+		}
 		return &mapIter{m: x}
 	case string, *SymStr:
 		return &strIter{s: x}
@@ -712,8 +733,25 @@ func (in *Interp) equals(x, y Value) *Term {
 		return res
 	case Iface:
 		yv := y.(Iface)
+		if lv, ok := isLazy(xv); ok {
+			if yv.t == nil {
+				return mkBool(in.lazyNil(lv))
+			}
+			if _, ok2 := isLazy(yv); ok2 {
+				panic(unsupported{"comparison of two lazy any values"})
+			}
+			xv = in.lazyAs(lv, yv.t)
+		} else if lv, ok := isLazy(yv); ok {
+			if xv.t == nil {
+				return mkBool(in.lazyNil(lv))
+			}
+			yv = in.lazyAs(lv, xv.t)
+		}
 		if xv.t == nil || yv.t == nil {
 			return mkBool(xv.t == nil && yv.t == nil)
+		}
+		if xv.t == lazyOtherType || yv.t == lazyOtherType {
+			return falseT
 		}
 		if !types.Identical(xv.t, yv.t) {
 			return falseT
@@ -956,19 +994,37 @@ func (in *Interp) callBuiltin(caller *frame, fn *ssa.Builtin, args []Value) Valu
 			return args[0]
 		}
 		dst := args[0].(Slice)
+		// like the runtime: when the result does not fit, allocate the new
+		// array first and never touch the old one
+		grow := func(n int) {
+			if len(dst)+n > cap(dst) {
+				nc := 2 * cap(dst)
+				if nc < len(dst)+n {
+					nc = len(dst) + n
+				}
+				nd := make(Slice, len(dst), nc)
+				copy(nd, dst)
+				dst = nd
+			}
+		}
 		switch src := args[1].(type) {
 		case string, *SymStr:
-			for _, b := range strBytes(src) {
-				dst = append(dst, b)
+			b := strBytes(src)
+			grow(len(b))
+			for _, t := range b {
+				dst = append(dst, t)
 			}
 			return dst
 		case Slice:
 			if len(src) == 0 {
 				return dst
 			}
-			for _, v := range src {
-				dst = append(dst, copyVal(v))
+			tmp := make([]Value, len(src))
+			for i, v := range src {
+				tmp[i] = copyVal(v)
 			}
+			grow(len(tmp))
+			dst = append(dst, tmp...)
 			return dst
 		}
 		panic(fmt.Sprintf("append of %T", args[1]))
@@ -1049,6 +1105,9 @@ func (in *Interp) callBuiltin(caller *frame, fn *ssa.Builtin, args []Value) Valu
 		case *Map:
 			if x == nil {
 				return mkConst(0, 64)
+			}
+			if x.lazy != nil {
+				panic(unsupported{"len of a lazy (arbitrary) map"})
 			}
 			return mkConst(uint64(x.live), 64)
 		case *Chan:
